@@ -236,6 +236,16 @@ def check_ehep(case):
         rho, p, e = gamma_law(o, sol, 3.0, c_name='sound_speed', regime=str(sol['region'][0]))
         if p[0] > 0:
             o.nontrivial = True
+    # one request with many points in ascending order through products, unreacted explosive and void (the usual way the solver is called)
+    P = case['params']
+    w0 = case['pts'][0][1]
+    for t_ in (w0[0] * P['xtilde'] / P['D'], (1.0 + 3.0 * w0[1]) * P['xtilde'] / P['D']):
+        xs = np.linspace(0.0, min(P['xmax'], 3.0 * P['xtilde'] + P['D'] * t_), 41)
+        sol = cat.quiet(s, xs, t_)
+        gamma_law(o, sol, 3.0, c_name='sound_speed', regime='sweep')
+        quiet = np.isin(np.asarray(sol['region']).astype(str), ['0H'])
+        o.close('unreacted explosive in a sweep: p = 0, c = 0, u = 0', np.concatenate([np.asarray(sol[k], float)[quiet] for k in ('pressure', 'sound_speed', 'velocity')]), 0.0, 0.0, atol=0.0,
+                regime='sweep')
     return o
 
 
